@@ -1383,7 +1383,7 @@ impl Server {
                         eprintln!("Failed to append to AOF: {}", e);
                     }
                 }
-            } else if self.is_write_command(&command_name) {
+            } else if self.is_write_command(&command_name) && !Self::has_random_outcome(&command_name, parts) {
                 if let Err(e) = aof.append_command_in_db(db, parts) {
                     eprintln!("Failed to append to AOF: {}", e);
                 }
@@ -1674,6 +1674,20 @@ impl Server {
             _ => Ok(RespFrame::error(format!("ERR unknown command '{}'", command_name))),
         };
         
+        // A command with a random outcome is logged by its effect, known only now: re-executed
+        // verbatim it would pop other members or generate another id
+        if let Some(aof) = &self.aof_engine {
+            if Self::has_random_outcome(&command_name, parts) {
+                if let Ok(resp) = &result {
+                    if let Some(effect) = Self::effect_of_random_command(&command_name, parts, resp) {
+                        if let Err(e) = aof.append_command_in_db(db, &effect) {
+                            eprintln!("Failed to append to AOF: {}", e);
+                        }
+                    }
+                }
+            }
+        }
+        
         // Auto-save change recording - always enabled (independent of monitoring)
         if self.is_write_command(&command_name) {
             if let Ok(resp) = &result {
@@ -1772,6 +1786,51 @@ impl Server {
     fn record_change(&self) {
         if let Some(monitor) = &self.storage_monitor {
             monitor.record_change();
+        }
+    }
+    
+    /// Commands whose outcome is not determined by their arguments and the dataset:
+    /// SPOP (which members) and XADD with an auto-generated id (which id)
+    fn has_random_outcome(command: &str, parts: &[RespFrame]) -> bool {
+        match command {
+            "SPOP" => true,
+            "XADD" => matches!(parts.get(2), Some(RespFrame::BulkString(Some(id))) if id.as_slice() == b"*"),
+            _ => false,
+        }
+    }
+    
+    /// The deterministic command that has the effect a command with a random outcome just had:
+    /// SPOP -> SREM of the members it returned, XADD * -> XADD with the id it returned
+    fn effect_of_random_command(command: &str, parts: &[RespFrame], response: &RespFrame) -> Option<Vec<RespFrame>> {
+        match command {
+            "SPOP" => {
+                let members: Vec<RespFrame> = match response {
+                    RespFrame::BulkString(Some(_)) => vec![response.clone()],
+                    RespFrame::Array(Some(items)) => items.iter()
+                        .filter(|item| matches!(item, RespFrame::BulkString(Some(_))))
+                        .cloned()
+                        .collect(),
+                    _ => Vec::new(),
+                };
+                if members.is_empty() {
+                    return None;
+                }
+                let mut effect = vec![
+                    RespFrame::BulkString(Some(Arc::new(b"SREM".to_vec()))),
+                    parts.get(1)?.clone(),
+                ];
+                effect.extend(members);
+                Some(effect)
+            }
+            "XADD" => match response {
+                RespFrame::BulkString(Some(_)) => {
+                    let mut effect = parts.to_vec();
+                    effect[2] = response.clone();
+                    Some(effect)
+                }
+                _ => None,
+            },
+            _ => None,
         }
     }
     
